@@ -18,11 +18,16 @@ import (
 
 	leanhelix "github.com/orbs-network/lean-helix-go"
 	"github.com/orbs-network/lean-helix-go/services/interfaces"
+	"github.com/orbs-network/lean-helix-go/services/storage"
 	"github.com/orbs-network/lean-helix-go/spec/types/go/primitives"
 	"github.com/orbs-network/lean-helix-go/spec/types/go/protocol"
 )
 
-func init() { engines["world"] = runWorld }
+func init() {
+	engines["world"] = func(cfg *runCfg) error { return runWorldMode(cfg, "world", false) }
+	// the known-finding stream: Byzantine leaders also send standalone PREPREPAREs in views above 0 (KF-1)
+	engines["worldkf1"] = func(cfg *runCfg) error { return runWorldMode(cfg, "worldkf1", true) }
+}
 
 const worldInst = 7
 
@@ -92,6 +97,9 @@ type simNode struct {
 	rounds  []uint64
 	hvs     [][2]uint64
 	sentLog []*aMsg // everything this node sent (abstract, exact)
+	curSent []*aMsg
+	stored, storedBefore map[string]bool
+	storedPP, storedPPPrev map[string]bool
 	panicked bool
 }
 
@@ -102,6 +110,7 @@ type commitRec struct {
 }
 
 type pend struct {
+	genuine bool
 	to  uint64
 	msg *aMsg
 	raw *interfaces.ConsensusRawMessage
@@ -128,7 +137,11 @@ type world struct {
 	excl        map[uint64][]uint64
 	trace       []string // human-readable schedule (for replay files)
 	kf1         bool     // standalone PREPREPARE in view>0 stream enabled
+	kf1Adopted  bool     // some correct node adopted a standalone PREPREPARE in a view above 0 in this world
 	chain       map[uint64]*aBlock // committed block per height (first commit seen)
+	held        map[uint64]bool    // nodes whose inbox is currently held back
+	slowCommits   bool
+	slowUntilView uint64
 }
 
 func (w *world) committeeAt(h uint64, forNode uint64) []interfaces.CommitteeMember {
@@ -166,7 +179,7 @@ func (w *world) fBound() uint64 { return (w.totalWeight() - 1) / 3 }
 func (w *world) quorum() uint64 { return w.totalWeight() - w.fBound() }
 
 func (w *world) newNode(id uint64) *simNode {
-	n := &simNode{w: w, id: id}
+	n := &simNode{w: w, id: id, stored: map[string]bool{}, storedBefore: map[string]bool{}, storedPP: map[string]bool{}, storedPPPrev: map[string]bool{}}
 	n.sched = &recScheduler{node: n, ch: make(chan *interfaces.ElectionTrigger)}
 	cfg := &interfaces.Config{
 		InstanceId:              worldInst,
@@ -175,6 +188,7 @@ func (w *world) newNode(id uint64) *simNode {
 		BlockUtils:              &nodeBlockUtils{n},
 		KeyManager:              &keyManager{w.kr, idBytes(id)},
 		OverrideElectionTrigger: n.sched,
+		Storage:                 &recStorage{storage.NewInMemoryStorage(), n},
 	}
 	n.vn = leanhelix.VerifNewNode(cfg, n.onCommit, n.onNewRound)
 	return n
@@ -225,10 +239,20 @@ func (n *simNode) obs() string {
 	return fmt.Sprintf("(%d, %d, %s, %s)", uint64(st.Height()), uint64(st.View()), cBool(n.vn.HasTerm()), t)
 }
 
-// apply runs one event on the real node, records the Coq tstep, and routes what the node sent.
-func (n *simNode) apply(evCoq string, desc string, f func()) {
+// apply runs one event on the real node, records the Coq tstep, routes what the node sent, runs the monitors.
+func (n *simNode) apply(evCoq string, desc string, ev evInfo, f func()) {
 	w := n.w
 	n.outs = nil
+	n.curSent = nil
+	bf := n.before()
+	n.storedBefore = map[string]bool{}
+	for k := range n.stored {
+		n.storedBefore[k] = true
+	}
+	n.storedPPPrev = map[string]bool{}
+	for k := range n.storedPP {
+		n.storedPPPrev[k] = true
+	}
 	func() {
 		defer func() {
 			if e := recover(); e != nil {
@@ -240,10 +264,10 @@ func (n *simNode) apply(evCoq string, desc string, f func()) {
 		f()
 	}()
 	w.trace = append(w.trace, fmt.Sprintf("node %d: %s", n.id, desc))
-	// the sends appear in n.outs through the comm recorder hook below; interleave by draining in order
 	n.steps = append(n.steps, fmt.Sprintf("(%s, %s, %s)", evCoq, cList(n.outs), n.obs()))
 	st := n.vn.State()
 	n.hvs = append(n.hvs, [2]uint64{uint64(st.Height()), uint64(st.View())})
+	w.afterEvent(n, ev, bf, n.outs, n.curSent)
 }
 
 // hooked communication: record in order with the other outputs
@@ -263,12 +287,13 @@ func (c *orderedComm) SendConsensusMessage(ctx context.Context, recipients []pri
 	}
 	n.outs = append(n.outs, fmt.Sprintf("OSend %s %s", cListN(to), canon(m).coq()))
 	n.sentLog = append(n.sentLog, m)
+	n.curSent = append(n.curSent, m)
 	w.noteSigned(m, n.id)
 	w.sendMonitors(n, m, raw)
 	w.history = append(w.history, m)
 	for _, t := range to {
 		if _, ok := w.byId[t]; ok {
-			w.pool = append(w.pool, pend{t, m, raw})
+			w.pool = append(w.pool, pend{true, t, m, raw})
 		}
 	}
 	return nil
@@ -292,11 +317,14 @@ func keysOf(m map[uint64]bool) []uint64 {
 
 // ---- events ----
 func (w *world) deliver(n *simNode, m *aMsg, raw *interfaces.ConsensusRawMessage) {
-	n.apply("EDeliver "+m.coq(), fmt.Sprintf("deliver %s h=%d v=%d from %d", m.Kind, m.height(), m.view(), m.sender()), func() { n.vn.Deliver(raw) })
+	w.deliverG(n, m, raw, false)
+}
+func (w *world) deliverG(n *simNode, m *aMsg, raw *interfaces.ConsensusRawMessage, genuine bool) {
+	n.apply("EDeliver "+m.coq(), fmt.Sprintf("deliver %s h=%d v=%d from %d: %s", m.Kind, m.height(), m.view(), m.sender(), m.coq()), evInfo{kind: "deliver", msg: m, genuine: genuine}, func() { n.vn.Deliver(raw) })
 	w.rep.count("event:deliver-" + m.Kind)
 }
 func (w *world) election(n *simNode, h, v uint64) {
-	n.apply(fmt.Sprintf("EElection %d %d", h, v), fmt.Sprintf("election (%d,%d)", h, v), func() {
+	n.apply(fmt.Sprintf("EElection %d %d", h, v), fmt.Sprintf("election (%d,%d)", h, v), evInfo{kind: "election", h: h, v: v}, func() {
 		cb := n.sched.cb
 		var f func()
 		if cb != nil {
@@ -313,7 +341,7 @@ func (w *world) sync(n *simNode, b *aBlock) {
 		blk = w.codec.mkBlock(b)
 		h = b.Height
 	}
-	n.apply("ESync "+b.coq(), fmt.Sprintf("sync to block of height %d", h), func() { n.vn.Sync(blk, w.codec.syncProof(h)) })
+	n.apply("ESync "+b.coq(), fmt.Sprintf("sync to block of height %d", h), evInfo{kind: "sync"}, func() { n.vn.Sync(blk, w.codec.syncProof(h)) })
 	w.rep.count("event:sync")
 }
 
@@ -426,9 +454,9 @@ func (w *world) inject(n *simNode, m *aMsg, why string) {
 	w.deliver(n, m, raw)
 }
 
-func runWorld(cfg *runCfg) error {
+func runWorldMode(cfg *runCfg, name string, kf1 bool) error {
 	r := rand.New(rand.NewSource(cfg.seed))
-	rep := newReport("world", cfg)
+	rep := newReport(name, cfg)
 	runs := 60
 	if cfg.tier == "thorough" {
 		runs = 1500
@@ -441,7 +469,14 @@ func runWorld(cfg *runCfg) error {
 	nontrivial := 0
 	for i := 0; i < runs; i++ {
 		w := newWorld(r, rep, cfg.seed*100000+int64(i))
-		w.run()
+		w.kf1 = kf1
+		if kf1 && i == 0 {
+			w = kf1ForkWorld(r, rep, cfg.seed*100000)
+			w.kf1ForkScript()
+			rep.count("world:directed-KF-1-fork-script")
+		} else {
+			w.run()
+		}
 		for _, n := range w.honest {
 			cases = append(cases, fmt.Sprintf("(CFG %d %d %s %d %s %s, %s)", n.id, worldInst, w.baseCoq(), w.rot, cListN(w.excl[n.id]), cListN(w.failCommit[n.id]), cList(n.steps)))
 			events += len(n.steps)
@@ -460,7 +495,7 @@ func runWorld(cfg *runCfg) error {
 	rep.Rule = fmt.Sprintf("%d random worlds (4-7 members, unit/random/heavy weights, rotation 0/1, Byzantine subsets of weight <= f, 40-260 scheduler steps: deliveries, duplicates, drops, elections, syncs, mutated replays, Byzantine strategies); one case per honest node = its whole event/output/state trace; non-trivial = the node committed at least one block; worlds are distinct by construction (seeded)", runs)
 	cf := newCaseFile("From LH Require Import Prims Quorum Msg Term Corr.\nOpen Scope N_scope.")
 	cf.addShards("nc", "ncase", "n_ok", cases, 40)
-	p := filepath.Join(cfg.outDir, "cases_world.v")
+	p := filepath.Join(cfg.outDir, "cases_"+name+".v")
 	if err := cf.write(p); err != nil {
 		return err
 	}
@@ -485,7 +520,7 @@ func (w *world) baseCoq() string {
 
 func newWorld(r *rand.Rand, rep *Report, seed int64) *world {
 	w := &world{r: r, rep: rep, kr: newKeyring(seed), byz: map[uint64]bool{}, byId: map[uint64]*simNode{}, signed: map[string]bool{},
-		proposedBy: map[uint64]uint64{}, validatedBy: map[uint64][]uint64{}, failCommit: map[uint64][]uint64{}, excl: map[uint64][]uint64{}, chain: map[uint64]*aBlock{}}
+		proposedBy: map[uint64]uint64{}, validatedBy: map[uint64][]uint64{}, failCommit: map[uint64][]uint64{}, excl: map[uint64][]uint64{}, chain: map[uint64]*aBlock{}, held: map[uint64]bool{}}
 	w.codec = newCodec(w.kr)
 	w.n = 4 + r.Intn(4)
 	w.weights = make([]uint64, w.n)
